@@ -725,7 +725,7 @@ def _bucket_maps(loader, lens, nb, bs, dyn):
     return idx2bucket, bucket2size, spec_params(lens, nb, bs, dyn, idx2bucket, bucket2size)
 
 
-def _epochs_protocol(mk, check_epoch, n_epochs=2):
+def _epochs_protocol(mk, check_epoch, n_epochs=2, n=None):
     """len before every epoch = batches yielded; structure of every epoch; identical batches for identical
     (seed, epoch): epoch 1 by iteration == epoch 1 by init_epoch; epoch 0 again by assigning .epoch"""
     L = mk(0)
@@ -734,6 +734,8 @@ def _epochs_protocol(mk, check_epoch, n_epochs=2):
         if L.epoch != ep:
             return "loader.epoch is %r before epoch %d" % (L.epoch, ep)
         order = [int(i) for i in L.batch_sampler.sampler.get_samples_for_epoch(ep)]
+        if n is not None and sorted(order) != list(range(n)):  # (a loader that finds fewer utterances would satisfy the rest vacuously)
+            return "epoch %d: the loader samples from %d utterances, the directory holds %d" % (ep, len(order), n)
         reported = len(L)
         batches = list(L)
         if reported != len(batches):
@@ -823,7 +825,7 @@ def check_loader_spect(case):
                     index_batches.append(rows)
                 return spec_bucket_batches(order, bucket_of, size_of, drop, index_batches, ordered=not sort)
 
-            return _epochs_protocol(mk, check_epoch)
+            return _epochs_protocol(mk, check_epoch, n=len(lens))
     finally:
         cm.__exit__(None, None, None)
 
@@ -883,7 +885,7 @@ def check_loader_lang(case):
                     index_batches.append(rows)
                 return spec_bucket_batches(order, bucket_of, size_of, drop, index_batches, ordered=not sort)
 
-            return _epochs_protocol(mk, check_epoch)
+            return _epochs_protocol(mk, check_epoch, n=len(lens))
     finally:
         cm.__exit__(None, None, None)
 
@@ -940,7 +942,7 @@ def check_loader_window(case):
                     index_batches.append(rows)
                 return spec_bucket_batches(order, dict((i, 0) for i in range(len(lens))), {0: bs}, drop, index_batches)
 
-            return _epochs_protocol(mk, check_epoch)
+            return _epochs_protocol(mk, check_epoch, n=len(lens))
     finally:
         cm.__exit__(None, None, None)
 
